@@ -34,7 +34,7 @@ func init() {
 
 func (c *Ctx) libFuncs() []*ssa.Function {
 	var out []*ssa.Function
-	for _, f := range c.Funcs {
+	for _, f := range c.subjects() {
 		if f.Pkg == c.LibSSA {
 			out = append(out, f)
 		}
